@@ -228,6 +228,24 @@ func checkJsByte(c *seq.Ctx, tok string) {
 			sig = "JsByte mis-decodes " + tokClass(k, body) + " token"
 		}
 	}
+	if bad == "" {
+		// the same token decoded into a receiver that already holds a (longer) list gives the same result
+		used := tex.JsByte{200, 201, 202, 203, 204, 205, 206, 207, 208, 209, 210, 211}
+		err2 := func() (e error) {
+			defer func() {
+				if r := recover(); r != nil {
+					e = fmt.Errorf("PANIC %v", r)
+				}
+			}()
+			return used.UnmarshalJSON([]byte(tok))
+		}()
+		switch {
+		case (err == nil) != (err2 == nil):
+			bad, sig = fmt.Sprintf("JsByte.UnmarshalJSON(%s): %v into an empty receiver, %v into a receiver that already held 12 elements", tok, err, err2), "JsByte result depends on what the receiver held before"
+		case err == nil && k != kNull && !(len(v) == 0 && len(used) == 0) && !reflect.DeepEqual([]byte(v), []byte(used)):
+			bad, sig = fmt.Sprintf("JsByte.UnmarshalJSON(%s) = %v into an empty receiver but %v into a receiver that already held 12 elements", tok, []byte(v), []byte(used)), "JsByte result depends on what the receiver held before"
+		}
+	}
 	c.Case("JsByte/"+tokClass(k, body)+"/"+class, bad, sig, func() interface{} { return map[string]string{"decoder": "JsByte", "token": tok} })
 }
 
@@ -773,6 +791,10 @@ func base64Texts(c *seq.Ctx) {
 		for vi, v := range []interface{}{txt, []byte(txt)} {
 			var y tex.Base64Bytes
 			err := y.Scan(v)
+			used := tex.Base64Bytes("previous content of the receiver, longer than the text")
+			if err2 := used.Scan(v); (err == nil) != (err2 == nil) || (err == nil && string(used) != string(y)) {
+				c.Case(fmt.Sprintf("b64/%d/receiver", vi), fmt.Sprintf("Base64Bytes.Scan(%q as %T) = %v/%v into an empty receiver, %v/%v into a used one", txt, v, []byte(y), err, []byte(used), err2), "Base64Bytes result depends on what the receiver held before", func() interface{} { return txt })
+			}
 			class, bad, sig := "err", "", ""
 			if err == nil {
 				class = "ok"
@@ -835,7 +857,7 @@ func base64Texts(c *seq.Ctx) {
 
 func main() {
 	r := ev.Start("C20")
-	r.Rule("round trips over boundary value sets through the types' own methods, encoding/json and jsoniter; exact-or-error: every string up to the stated length over the alphabet \" 0 1 9 2 5 6 - + . e / space x that json.Valid accepts, plus special long-digit / junk tokens, fed to every UnmarshalJSON and compared with an arbitrary-precision reading of the token; every text up to length 5 (quick) / 6 (thorough) over payload / padding / url-alphabet / blank / CR / LF characters plus line-wrapped encodings of 0..130 bytes scanned into Base64Bytes as string and as []byte against a bitwise reference decoder; distinct = (decoder, token class, outcome class)")
+	r.Rule("round trips over boundary value sets through the types' own methods, encoding/json and jsoniter; exact-or-error: every string up to the stated length over the alphabet \" 0 1 9 2 5 6 - + . e / space x that json.Valid accepts, plus special long-digit / junk tokens, fed to every UnmarshalJSON and compared with an arbitrary-precision reading of the token (slice-typed receivers also pre-filled: the result must not depend on what the receiver held); every text up to length 5 (quick) / 6 (thorough) over payload / padding / url-alphabet / blank / CR / LF characters plus line-wrapped encodings of 0..130 bytes scanned into Base64Bytes as string and as []byte against a bitwise reference decoder; distinct = (decoder, token class, outcome class)")
 	r.Assume("a token 'denotes' an integer iff it is a quoted [+-]?digits string or an integral bare JSON number; an empty string may decode to zero; null may be a no-op")
 	maxLen := r.Pick(6, 7)
 	fams := []seq.Family{
